@@ -323,6 +323,12 @@ example : engineGrad .sumInner .float32 [[1, 0], [0, 1]] [[1, 1], [0, 1]] 1 = so
 example : engineGrad .frobenius .float64 [[1]] [[0]] 1 = none := by decide +kernel
 example : (2 : Rat) * 2 = frob [[2, 0], [0, 0]] [[2, 0], [0, 0]] := by decide +kernel
 example : observed [1, 2] (sgdStep [1, 2] [4, 8] (1/4)) (1/4) = [4, 8] := by decide +kernel
+-- the optimiser is a parameter: two steps of SGD with momentum 1/2 on one 1x1 tensor (gradient 1 both times, lr 1):
+-- buf = 1, then 1/2 + 1 = 3/2; W = 0 - 1 - 3/2
+example : ((AdvStep.step torchStep 0 (AdvStep.sgdMomentum 1 (1/2)) (AdvStep.sgd 1)
+      ⟨⟨[[[0]]], [none]⟩, ⟨[], []⟩⟩ ⟨[[[1]]], [[[0]]], []⟩).bind
+    (fun m => AdvStep.step torchStep 0 (AdvStep.sgdMomentum 1 (1/2)) (AdvStep.sgd 1) m ⟨[[[1]]], [[[0]]], []⟩)).map
+    (fun m => m.pred.params) = some [[[-5/2]]] := by decide +kernel
 -- one whole step: predictor with a 2x2 weight and a bias, adversary with one 1x2 weight; alpha = 1, lr 1/2 and 1/4
 example : (AdvStep.step torchStep 1 (AdvStep.sgd (1/2)) (AdvStep.sgd (1/4))
     ⟨⟨[[[1, 0], [0, 1]], [[1, 1]]], [(), ()]⟩, ⟨[[[2, 4]]], [()]⟩⟩
